@@ -1,2 +1,595 @@
+"""pyvc.cy2py -- mechanical de-sugaring of Cython source into Python source
+that `ast.parse` accepts, run on every check from the current .pyx text.
+
+It is a translator without per-function knowledge.  It works on logical
+lines obtained with Python's own tokenizer and keeps line numbers (a logical
+line spanning several physical lines is emitted on its first line, followed by
+blank lines).
+
+  cdef T x [= e] [, y ...]        ->  x: "T" [= e]
+  cdef T buf[N]                   ->  buf: "T[N]"
+  def/cdef/cpdef R f(T a, U[:] b not None) [nogil] [except X]:
+                                  ->  def f(a: "T", b: "U[:]") -> "R":
+  <T>e                            ->  __cast__("T", e)
+  &x                              ->  __addr__(x)
+  ctypedef T Name                 ->  alias (info['aliases'])
+  ctypedef fused Name: members    ->  info['fused']
+  cdef enum                       ->  integer constants
+  cdef class                      ->  class  (+ typed attribute table)
+  with nogil: / with gil:         ->  if True:
+  cimport ..., extern blocks      ->  dropped (recorded)
+"""
+import io
+import re
+import tokenize
+
+TYPE_WORDS = {"int", "long", "short", "char", "unsigned", "signed", "float", "double",
+              "bint", "void", "object", "str", "bytes", "list", "dict", "tuple", "set",
+              "size_t", "Py_ssize_t", "ssize_t", "const", "bytearray", "bool", "ptr",
+              "int8", "int16", "int32", "int64", "uint8", "uint16", "uint32", "uint64",
+              "float32", "float64"}
+
+
+class CyError(Exception):
+    pass
+
+
+def logical_lines(text):
+    """list of (first_line_no, last_line_no, indent, tokens) per logical line;
+    comments dropped"""
+    toks = []
+    try:
+        for t in tokenize.generate_tokens(io.StringIO(text).readline):
+            toks.append(t)
+    except tokenize.TokenError as e:
+        raise CyError(f"tokenize: {e}")
+    lines = []
+    cur = []
+    for t in toks:
+        if t.type in (tokenize.COMMENT, tokenize.NL, tokenize.INDENT, tokenize.DEDENT, tokenize.ENDMARKER):
+            continue
+        if t.type == tokenize.NEWLINE:
+            if cur:
+                lines.append(cur)
+                cur = []
+            continue
+        cur.append(t)
+    if cur:
+        lines.append(cur)
+    return lines
+
+
+def toks_text(toks):
+    """re-join tokens of one logical line into one physical line"""
+    out = []
+    prev = None
+    for t in toks:
+        if prev is not None:
+            if t.start[0] == prev.end[0]:
+                gap = t.start[1] - prev.end[1]
+                out.append(" " * gap)
+            else:
+                out.append(" ")
+        s = t.string
+        if t.type == tokenize.STRING and "\n" in s:
+            pass
+        out.append(s)
+        prev = t
+    return "".join(out)
+
+
+def split_top(s, sep=","):
+    """split at top-level separators (outside brackets / strings)"""
+    parts, depth, cur, q = [], 0, [], None
+    i = 0
+    while i < len(s):
+        c = s[i]
+        if q:
+            cur.append(c)
+            if c == "\\":
+                cur.append(s[i + 1])
+                i += 1
+            elif c == q:
+                q = None
+        elif c in "\"'":
+            q = c
+            cur.append(c)
+        elif c in "([{":
+            depth += 1
+            cur.append(c)
+        elif c in ")]}":
+            depth -= 1
+            cur.append(c)
+        elif c == sep and depth == 0:
+            parts.append("".join(cur))
+            cur = []
+        else:
+            cur.append(c)
+        i += 1
+    parts.append("".join(cur))
+    return parts
+
+
+def find_top(s, ch):
+    depth, q = 0, None
+    i = 0
+    while i < len(s):
+        c = s[i]
+        if q:
+            if c == "\\":
+                i += 1
+            elif c == q:
+                q = None
+        elif c in "\"'":
+            q = c
+        elif c in "([{":
+            depth += 1
+        elif c in ")]}":
+            depth -= 1
+        elif c == ch and depth == 0:
+            # skip ==, <=, >=, !=
+            if ch == "=" and (s[i + 1:i + 2] == "=" or (i > 0 and s[i - 1] in "=!<>")):
+                i += 1
+                continue
+            return i
+        i += 1
+    return -1
+
+
+def norm_type(t):
+    t = " ".join(t.split())
+    t = t.replace("np.", "").replace("cnp.", "")
+    t = re.sub(r"\b(u?int\d+|float\d+|intp|uintp)_t\b", r"\1", t)
+    t = t.replace(" *", "*").replace("* ", "*")
+    t = re.sub(r"\s*\[\s*", "[", t)
+    t = re.sub(r"\s*\]", "]", t)
+    t = re.sub(r"\s*,\s*", ",", t)
+    return t.strip()
+
+
+DECL_RE = re.compile(
+    r"^(?P<type>(?:const\s+)?(?:unsigned\s+|signed\s+)?(?:long\s+long|long\s+double|[A-Za-z_][\w\.]*)(?:\s+(?:int|long|char|short|double)\b)?"
+    r"(?:\s*\[[^\]]*\])?)\s*(?P<rest>.*)$")
+
+
+def parse_declarator(chunk, base_type):
+    """one declarator:  [*]* name [ [N] ] [= expr]  -> (name, type, init)"""
+    eq = find_top(chunk, "=")
+    init = None
+    if eq >= 0:
+        init = chunk[eq + 1:].strip()
+        chunk = chunk[:eq]
+    chunk = chunk.strip()
+    stars = 0
+    while chunk.startswith("*"):
+        stars += 1
+        chunk = chunk[1:].strip()
+    m = re.match(r"^([A-Za-z_]\w*)\s*(\[[^\]]*\])?\s*$", chunk)
+    if not m:
+        raise CyError(f"declarator {chunk!r}")
+    name, arr = m.group(1), m.group(2)
+    t = base_type + "*" * stars
+    if arr:
+        t = t + arr.replace(" ", "")
+    return name, norm_type(t), init
+
+
+def split_type_and_decls(s):
+    """'T [*]name [= e], name2' -> (type, [declarator chunks])"""
+    m = DECL_RE.match(s.strip())
+    if not m:
+        raise CyError(f"declaration {s!r}")
+    ty, rest = m.group("type"), m.group("rest")
+    if rest.strip().startswith("=") and re.match(r"^[A-Za-z_]\w*$", ty.strip()):
+        # `cdef name = expr`  (untyped: object)
+        return "object", [ty + " " + rest]
+    if not rest.strip():
+        # maybe the 'type' swallowed the name:  'object x'? handled by regex; else error
+        raise CyError(f"declaration without name {s!r}")
+    return ty, split_top(rest)
+
+
+def rewrite_params(params, info):
+    """typed parameter list -> annotated Python parameter list"""
+    if not params.strip():
+        return params
+    out = []
+    for p in split_top(params):
+        p = p.strip()
+        if not p:
+            continue
+        if p in ("*", "/") or p.startswith("*"):
+            out.append(p)
+            continue
+        p = re.sub(r"\s+(not|or)\s+None\s*$", "", p)
+        eq = find_top(p, "=")
+        default = None
+        if eq >= 0:
+            default = p[eq + 1:].strip()
+            p = p[:eq].strip()
+        p = re.sub(r"\s+(not|or)\s+None\s*$", "", p)
+        # python annotation already?
+        if re.match(r"^[A-Za-z_]\w*\s*:", p):
+            out.append(p + (" = " + default if default is not None else ""))
+            continue
+        toks = p.split()
+        m = re.match(r"^(.*?)(\**)\s*([A-Za-z_]\w*)$", p)
+        if m and m.group(1).strip():
+            ty = norm_type(m.group(1).strip() + m.group(2))
+            name = m.group(3)
+            out.append(f'{name}: "{ty}"' + (" = " + default if default is not None else ""))
+        else:
+            out.append(p + (" = " + default if default is not None else ""))
+    return ", ".join(out)
+
+
+def rewrite_casts(line, info):
+    """<T>expr -> __cast__("T", expr);  unary &x -> __addr__(x)"""
+    # work on a character level with a small scanner
+    out = []
+    i = 0
+    n = len(line)
+    q = None
+
+    def prev_sig():
+        j = len(out) - 1
+        while j >= 0 and out[j].isspace():
+            j -= 1
+        return out[j] if j >= 0 else ""
+
+    def prev_word():
+        s = "".join(out).rstrip()
+        m = re.search(r"([A-Za-z_]\w*)$", s)
+        return m.group(1) if m else ""
+
+    while i < n:
+        c = line[i]
+        if q:
+            out.append(c)
+            if c == "\\" and i + 1 < n:
+                out.append(line[i + 1])
+                i += 1
+            elif line.startswith(q, i):
+                out.extend(line[i + 1:i + len(q)])
+                i += len(q) - 1
+                q = None
+            i += 1
+            continue
+        if c in "\"'":
+            q = line[i:i + 3] if line[i:i + 3] in ('"""', "'''") else c
+            out.extend(line[i:i + len(q)])
+            i += len(q)
+            continue
+        if c == "<":
+            ps = prev_sig()
+            pw = prev_word()
+            operand_before = (ps.isalnum() or ps in "_)]}\"'") and pw not in (
+                "return", "in", "not", "and", "or", "if", "else", "elif", "while", "is", "yield", "lambda", "print")
+            m = re.match(r"<\s*((?:const\s+)?(?:unsigned\s+|signed\s+)?[A-Za-z_][\w\.]*(?:\s+(?:int|long|char|short|double)\b)?(?:\s*\[[^\]]*\])?\s*\**)\s*>", line[i:])
+            if m and not operand_before and not line[i:].startswith("<=") and not line[i:].startswith("<<"):
+                ty = norm_type(m.group(1))
+                j = i + m.end()
+                # operand: one unary expression
+                k = j
+                while k < n and line[k].isspace():
+                    k += 1
+                start = k
+                if k < n and line[k] in "-+~&":
+                    k += 1
+                    while k < n and line[k].isspace():
+                        k += 1
+                if k < n and line[k] == "<":
+                    # nested cast: take through its operand recursively
+                    inner = rewrite_casts(line[k:], info)
+                    # inner now starts with __cast__( ... ) ; find its extent
+                    mm = re.match(r"__cast__\(", inner)
+                    if mm:
+                        depth = 0
+                        e = 0
+                        for e, ch in enumerate(inner):
+                            if ch == "(":
+                                depth += 1
+                            elif ch == ")":
+                                depth -= 1
+                                if depth == 0:
+                                    break
+                        out.append(f'__cast__("{ty}", {line[start:k]}{inner[:e + 1]})')
+                        out.append(inner[e + 1:])
+                        return "".join(out)
+                # primary
+                if k < n and line[k] in "([{":
+                    k = match_bracket(line, k) + 1
+                else:
+                    mm = re.match(r"[A-Za-z_0-9\.]+", line[k:])
+                    if mm:
+                        k += mm.end()
+                # trailers
+                while k < n:
+                    if line[k] in "([":
+                        k = match_bracket(line, k) + 1
+                    elif line[k] == "." and k + 1 < n and (line[k + 1].isalpha() or line[k + 1] == "_"):
+                        mm = re.match(r"\.[A-Za-z_]\w*", line[k:])
+                        k += mm.end()
+                    else:
+                        break
+                operand = rewrite_casts(line[start:k], info)
+                out.append(f'__cast__("{ty}", {operand})')
+                i = k
+                continue
+        if c == "&":
+            ps = prev_sig()
+            pw = prev_word()
+            unary = (ps == "" or ps in "(,=[{:+-*/%<>|&^~" or pw in ("return", "in", "not", "and", "or", "if", "else"))
+            m = re.match(r"&\s*([A-Za-z_]\w*)\b(?!\s*[\(\.])", line[i:])
+            if unary and m and not line[i:].startswith("&&") and not line[i:].startswith("&="):
+                e = i + m.end()
+                k = e
+                while k < n and line[k].isspace():
+                    k += 1
+                if k < n and line[k] == "[":
+                    e = match_bracket(line, k) + 1
+                    out.append(f"__addr__({m.group(1)}{rewrite_casts(line[k:e], info)})")
+                else:
+                    out.append(f"__addr__({m.group(1)})")
+                i = e
+                continue
+        out.append(c)
+        i += 1
+    return "".join(out)
+
+
+def match_bracket(s, i):
+    pairs = {"(": ")", "[": "]", "{": "}"}
+    depth = 0
+    q = None
+    j = i
+    while j < len(s):
+        c = s[j]
+        if q:
+            if c == "\\":
+                j += 1
+            elif c == q:
+                q = None
+        elif c in "\"'":
+            q = c
+        elif c in pairs:
+            depth += 1
+        elif c in ")]}":
+            depth -= 1
+            if depth == 0:
+                return j
+        j += 1
+    return len(s) - 1
+
+
+FUNC_RE = re.compile(
+    r"^(?P<kw>cdef|cpdef|def)\s+(?P<mods>(?:(?:inline|api|public|static)\s+)*)(?P<ret>.*?)\s*(?P<name>[A-Za-z_]\w*)\s*\((?P<params>.*)\)\s*(?P<tail>[^()]*?):\s*(?P<after>.*)$")
+
+
 def translate(text, pxd_text=None):
-    raise NotImplementedError
+    info = {"aliases": {}, "fused": {}, "dropped": [], "module_flags": {}, "cdef_classes": {},
+            "class_attrs": {}, "enums": {}}
+    for m in re.finditer(r"^#\s*cython:\s*(.*)$", text, re.M):
+        for kv in m.group(1).split(","):
+            if "=" in kv:
+                k, v = kv.split("=")
+                info["module_flags"][k.strip()] = v.strip() == "True"
+    pre = ""
+    if pxd_text:
+        # declarations from the .pxd (ctypedef / enums / cdef inline bodies) are prepended
+        # as a separate translation whose result is appended *before* the module body
+        pre_py, pre_info = _translate(pxd_text, info, is_pxd=True)
+        pre = pre_py
+    py, info = _translate(text, info)
+    if pre:
+        info["pxd_prelude_lines"] = pre.count("\n") + 1
+        # keep .pyx line numbers: the prelude goes on ONE line via exec of a string? simpler:
+        # place it at the end of the module (definitions only, order-independent for functions
+        # and constants used inside function bodies)
+        py = py + "\n" + pre + "\n"
+    return py, info
+
+
+def _translate(text, info, is_pxd=False):
+    src_lines = text.split("\n")
+    out_lines = [""] * (len(src_lines) + 1)
+    lls = logical_lines(text)
+    # block-structure state
+    skip_indent = None       # drop blocks (extern)
+    mode_stack = []          # (indent, mode) for cdef: / enum / fused / cdef class
+    enum_next = 0
+    body_indents = {}
+    for toks in lls:
+        first, last = toks[0].start[0], toks[-1].end[0]
+        indent = toks[0].start[1]
+        line = toks_text(toks)
+        ind = " " * indent
+        while mode_stack and indent <= mode_stack[-1][0]:
+            mode_stack.pop()
+        if skip_indent is not None:
+            if indent > skip_indent:
+                out_lines[first - 1] = ind + "pass"
+                continue
+            skip_indent = None
+        mode = mode_stack[-1][1] if mode_stack else None
+        if mode == "cdefclass" and mode_stack[-1][0] not in body_indents:
+            body_indents[mode_stack[-1][0]] = indent
+        info["_class_body_indent"] = body_indents.get(mode_stack[-1][0]) if mode == "cdefclass" else None
+        new = None
+        stripped = line.strip()
+        if mode == "fused":
+            info["fused"][mode_stack[-1][2]].append(norm_type(stripped))
+            new = "pass"
+        elif mode == "enum":
+            for part in split_top(stripped):
+                part = part.strip()
+                if not part:
+                    continue
+                if "=" in part:
+                    nm, val = part.split("=", 1)
+                    new = (new + "; " if new else "") + f"{nm.strip()} = {val.strip()}"
+                    try:
+                        enum_next = int(val.strip(), 0) + 1
+                    except ValueError:
+                        enum_next = None
+                else:
+                    if enum_next is None:
+                        raise CyError("enum auto value after non-literal")
+                    new = (new + "; " if new else "") + f"{part} = {enum_next}"
+                    enum_next += 1
+            # enum members are emitted one block level up
+            ind = " " * mode_stack[-1][0]
+        elif mode == "cdefblock":
+            new = rewrite_line("cdef " + stripped, info, mode_stack, indent)
+            ind = " " * indent
+        else:
+            try:
+                new = rewrite_line(stripped, info, mode_stack, indent)
+            except CyError as e:
+                info.setdefault("untranslated", []).append((first, str(e)))
+                new = ("if __cy_unsupported__(%d):" % first) if stripped.endswith(":") else ("__cy_unsupported__(%d)" % first)
+        if isinstance(new, tuple):
+            kind = new[0]
+            if kind == "skipblock":
+                skip_indent = indent
+                new = new[1]
+            elif kind == "push":
+                mode_stack.append((indent, new[1], new[2] if len(new) > 2 else None))
+                if new[1] == "enum":
+                    enum_next = 0
+                new = new[3] if len(new) > 3 else "pass"
+        out_lines[first - 1] = ind + new
+    return "\n".join(out_lines), info
+
+
+def _wrap_errors():
+    pass
+
+
+def rewrite_line(s, info, mode_stack, indent):
+    # --- imports
+    if re.match(r"^(from\s+\S+\s+)?cimport\b", s):
+        info["dropped"].append("cimport")
+        return "pass"
+    if s.startswith("DEF "):
+        return s[4:]
+    if re.match(r"^include\s", s):
+        info["dropped"].append("include")
+        return "pass"
+    # --- with nogil
+    if re.match(r"^with\s+(nogil|gil)\s*:\s*$", s):
+        info["dropped"].append("with nogil")
+        return "if True:"
+    # --- ctypedef
+    if s.startswith("ctypedef "):
+        body = s[len("ctypedef "):].strip()
+        m = re.match(r"^fused\s+([A-Za-z_]\w*)\s*:\s*$", body)
+        if m:
+            info["fused"][m.group(1)] = []
+            return ("push", "fused", m.group(1), "if True:")
+        if re.match(r"^(struct|union|enum|class)\b", body) or "(" in body:
+            info["dropped"].append("ctypedef " + body.split()[0])
+            return ("skipblock", "if True:") if body.rstrip().endswith(":") else "pass"
+        parts = body.rsplit(None, 1)
+        if len(parts) == 2:
+            info["aliases"][parts[1].strip()] = norm_type(parts[0])
+            return "pass"
+        raise CyError(f"ctypedef {body!r}")
+    # --- cdef extern
+    if re.match(r"^cdef\s+extern\b", s):
+        info["dropped"].append("cdef extern")
+        return ("skipblock", "if True:") if s.rstrip().endswith(":") else "pass"
+    # --- cdef: block
+    if re.match(r"^cdef\s*:\s*$", s):
+        return ("push", "cdefblock", None, "if True:")
+    # --- enums
+    m = re.match(r"^(cdef|cpdef)\s+enum\s*([A-Za-z_]\w*)?\s*:\s*(.*)$", s)
+    if m:
+        if m.group(3).strip():
+            # single-line enum
+            vals, nxt = [], 0
+            for part in split_top(m.group(3)):
+                part = part.strip()
+                if "=" in part:
+                    nm, v = part.split("=", 1)
+                    vals.append(f"{nm.strip()} = {v.strip()}")
+                    nxt = int(v.strip(), 0) + 1
+                else:
+                    vals.append(f"{part} = {nxt}")
+                    nxt += 1
+            return "; ".join(vals)
+        if m.group(2):
+            info["aliases"][m.group(2)] = "int"
+        return ("push", "enum", m.group(2), "pass")
+    # --- struct / union
+    if re.match(r"^cdef\s+(packed\s+)?(struct|union)\b", s):
+        info["dropped"].append("cdef struct")
+        return ("skipblock", "if True:") if s.rstrip().endswith(":") else "pass"
+    # --- cdef class
+    m = re.match(r"^cdef\s+class\s+(.*)$", s)
+    if m:
+        name = re.match(r"[A-Za-z_]\w*", m.group(1)).group(0)
+        info["cdef_classes"][name] = True
+        info["class_attrs"].setdefault(name, {})
+        return ("push", "cdefclass", name, "class " + rewrite_casts(m.group(1), info))
+    # --- functions
+    eq0 = find_top(s, "=")
+    par0 = s.find("(")
+    looks_func = re.match(r"^(cdef|cpdef|def)\b", s) and par0 > 0 and (eq0 < 0 or par0 < eq0)
+    if looks_func and re.match(r"^(cdef|cpdef)\b", s) and not re.search(r":\s*(\S.*)?$", s[match_bracket(s, par0):]):
+        # prototype without body (.pxd)
+        info["dropped"].append("prototype")
+        return "pass"
+    if looks_func:
+        m = FUNC_RE.match(s)
+        if m and (m.group("kw") == "def" or "(" in s):
+            kw, ret, name = m.group("kw"), m.group("ret").strip(), m.group("name")
+            tail = m.group("tail")
+            params = rewrite_params(m.group("params"), info)
+            params = rewrite_casts(params, info)
+            if kw == "def":
+                # 'def f(...) -> T:' keeps its annotation
+                rt = None
+                mt = re.search(r"->\s*(.+)$", tail)
+                if ret:
+                    raise CyError(f"def with return type {s!r}")
+                head = f"def {name}({params})"
+                if mt:
+                    head += f" -> {mt.group(1).strip()}"
+            else:
+                head = f"def {name}({params})"
+                if ret and ret != "void":
+                    head += f' -> "{norm_type(ret)}"'
+                for w in ("nogil", "noexcept", "except"):
+                    if w in tail:
+                        info["dropped"].append(w)
+            after = m.group("after").strip()
+            return head + ":" + (" " + rewrite_casts(after, info) if after else "")
+    # --- cdef declarations
+    m = re.match(r"^(cdef|cpdef)\s+(?:(public|readonly|private)\s+)?(.*)$", s)
+    if m:
+        body = m.group(3).strip()
+        in_class = bool(mode_stack) and mode_stack[-1][1] == "cdefclass" \
+            and indent == info.get("_class_body_indent")
+        ty, chunks = split_type_and_decls(body)
+        outs = []
+        for ch in chunks:
+            name, t, init = parse_declarator(ch, ty)
+            if in_class:
+                info["class_attrs"][mode_stack[-1][2]][name] = t
+                outs.append("pass")
+                continue
+            if init is not None:
+                outs.append(f'{name}: "{t}" = {rewrite_casts(init, info)}')
+            else:
+                outs.append(f'{name}: "{t}"')
+        return "; ".join(outs)
+    # --- plain statement: casts / address-of inside expressions; typed `def` params handled above
+    if "<" in s or "&" in s:
+        s = rewrite_casts(s, info)
+    return s
+
+
+def _class_level(mode_stack, indent):
+    """declaration directly in the class body (one level below the class header)"""
+    return True if mode_stack and mode_stack[-1][1] == "cdefclass" and getattr(_class_level, "probe", True) else False
